@@ -1,5 +1,7 @@
 import CnlProofs.WideFloatTo
 import CnlProofs.WideFloatFrom
+import CnlProofs.FloatFaithful
+import CnlProofs.WideFloatBracket
 import CnlSpec.WideFloat
 /-!
 # C10, floating-point part: theorems about `wide_integer` ⇄ `float` / `double` / `long double`
@@ -7,7 +9,8 @@ import CnlSpec.WideFloat
 Model: `CnlModel/WideFloat.lean` (`toFloat`, `fromFloat`, operation by operation in `CnlModel.CFloat`);
 specification: `CnlSpec/WideFloat.lean` (`toFloatOk`, `fromFloat`).  The heavy lifting is in
 `CnlProofs/WideFloatFrom.lean` (constructor from a float), `CnlProofs/WideFloatTo.lean` (exact conversions to a
-float) and `CnlProofs/FloatFaithful.lean` (round-to-nearest accumulation on natural numbers).
+float), `CnlProofs/FloatFaithful.lean` (round-to-nearest-even accumulation on natural numbers is faithful) and
+`CnlProofs/WideFloatBracket.lean` (the model's limb loop is that accumulation).
 
 Everything in the section `namespace Cnl.C10Float` below is meant to be re-exported into
 `CnlProperties/C10.lean` (check.py audits the axioms of the theorems of that file only).
@@ -20,16 +23,23 @@ Everything in the section `namespace Cnl.C10Float` below is meant to be re-expor
   `from_float_nonfinite` — NaN and ±∞ give 0.
 * `to_float_exact` — a value with at most `prec F` significant bits (below the overflow threshold of `F`) converts
   exactly, for every target format and every limb width that fits `long double`'s significand.
-* `to_float_bracket_partial` — see the statement: the result is one of the two neighbouring data of the exact value.
+* `to_float_bracket_partial` — for **every** limb width (also limbs wider than the precision, whose term is itself
+  rounded before it is added), limb count, signedness and target format: if `|v| < 2^(emax F − 1)` the result is the
+  datum of `v` when `v` is representable and otherwise one of its two neighbours in `F` (`WideFloatSpec.toFloatOk`).
+  `to_float_bracket_of_width` — hence without any condition on the value when `N + 1 ≤ emax F`: `double` for every width
+  up to 1022 bits, `long double` for every width of the property's range (and beyond, to 16382 bits).
+  The code performs up to two roundings per limb (conversion of the limb term when `w > prec F`, addition), i.e. up to
+  `2·⌈N/w⌉` roundings; the result is *faithful*, not always correctly rounded (`to_float_not_correctly_rounded`).
 * `to_float_bracket_tiny_*` — kernel-checked exhaustive instances of the *full* bracket statement in tiny formats,
   including limb widths above the precision and overflow to infinity.
 * `to_float_not_correctly_rounded` — a binary32 witness (`wide_integer<200,int>`): the result is the *other* neighbour.
 
 ## What is not proved
 
-`FullToFloatBracket` (the bracket for every format, including limbs wider than the precision — where the limb term
-is itself rounded before it is added — and values beyond the largest finite datum) is a definition.  It is supported by
-the exhaustive tiny-format theorems, an exhaustive `#eval` sweep (prec 2…6 × w 1…8 × ≤ 14 bits, signed and unsigned: no
+`FullToFloatBracket` — the bracket also for `|v| ≥ 2^(emax F − 1)`, i.e. next to and beyond the overflow threshold of
+`F` (only `float` from 2^126, and `double` from 2^1022, can get there; the expected results are the largest finite datum
+or `±∞`) — is a definition: the exactness lemmas of the proof are stated below `2^emax`.  That range is supported by
+the exhaustive tiny-format theorems (`to_float_bracket_tiny_overflow` overflows), an exhaustive `#eval` sweep (prec 2…6 × w 1…8 × ≤ 14 bits, signed and unsigned: no
 exception) and the differential harness (`C10 w2f` lines, ~10^5 per run on the real formats).
 -/
 namespace Cnl.C10Float
@@ -98,6 +108,62 @@ example : toFloat x87ext binary64 ⟨32, 7, true⟩ (ofNat 32 7 (2^224 - 3 * 2^1
     (a := ofNat 32 7 (2^224 - 3 * 2^100)) (Basic.ofNat_WF _ _ _) (Basic.ofNat_length _ _ _)
     ⟨3, 100, by decide +kernel, by decide⟩ (by decide +kernel)
   rw [h]; decide +kernel
+
+/-! ## to floating point: the two-neighbour bracket -/
+
+/-- the conversion to floating point returns the datum of the value when it is representable and one of its two
+neighbours in `F` otherwise — every limb width / count / signedness, every target format — provided the magnitude is
+below `2^(emax F − 1)` (partial only in this bound: see `FullToFloatBracket`) -/
+theorem to_float_bracket_partial (L F : FFmt) (hL : FmtOk L) (hF : FmtOk F) (f : WFmt) (hw : 1 ≤ f.w) (hn : 1 ≤ f.n)
+    (hLw : f.w ≤ L.prec) (hLN : (f.N : Int) ≤ L.emax)
+    {a : Limbs} (ha : WF f.w a) (hl : a.length = f.n)
+    (hmax : ((toInt f a).natAbs.log2 : Int) + 2 ≤ F.emax) :
+    WideFloatSpec.toFloatOk F (toInt f a) (toFloat L F f a) = true :=
+  BracketP.toFloat_bracket L F hL hF f hw hn hLw hLN ha hl hmax
+
+/-- the model's limb loop *is* the abstract accumulation `accLoop` (round the limb term, add, round) over the
+magnitude's significant limbs -/
+theorem to_float_eq_accumulation (L F : FFmt) (hL : FmtOk L) (hF : FmtOk F) (f : WFmt) (hw : 1 ≤ f.w) (hn : 1 ≤ f.n)
+    (hLw : f.w ≤ L.prec) (hLN : (f.N : Int) ≤ L.emax)
+    {a : Limbs} (ha : WF f.w a) (hl : a.length = f.n)
+    (hmax : ((toInt f a).natAbs.log2 : Int) + 2 ≤ F.emax) :
+    toFloat L F f a = F.roundND (decide (toInt f a < 0))
+      (FloatFaithful.accLoop F.prec f.w ((if isNeg f a then negate f.w a else a).take
+        (ilim f.w (if isNeg f a then negate f.w a else a))) 0 0) 1 :=
+  BracketP.toFloat_eq_acc L F hL hF f hw hn hLw hLN ha hl hmax
+
+/-- when the whole `N`-bit range stays below the overflow threshold (`N + 1 ≤ emax F`: `double` up to 1022 bits,
+`long double` always) the bracket holds for every value -/
+theorem to_float_bracket_of_width (L F : FFmt) (hL : FmtOk L) (hF : FmtOk F) (f : WFmt) (hw : 1 ≤ f.w) (hn : 1 ≤ f.n)
+    (hLw : f.w ≤ L.prec) (hLN : (f.N : Int) ≤ L.emax) (hFN : (f.N : Int) + 1 ≤ F.emax)
+    {a : Limbs} (ha : WF f.w a) (hl : a.length = f.n) :
+    WideFloatSpec.toFloatOk F (toInt f a) (toFloat L F f a) = true := by
+  apply to_float_bracket_partial L F hL hF f hw hn hLw hLN ha hl
+  obtain ⟨_, hval, hwf, hlen⟩ := ToP.abs_spec f hw hn ha hl
+  have hlt := Basic.toNat_lt hwf
+  rw [hval, hlen] at hlt
+  have hpos : 1 ≤ f.w * f.n := Nat.mul_pos hw hn
+  unfold Wide.Fmt.N at hFN
+  generalize f.w * f.n = N at hFN hpos hlt
+  by_cases h0 : (toInt f a).natAbs = 0
+  · rw [h0]; simp only [Nat.log2_zero]; omega
+  · have := (Nat.log2_lt h0).2 hlt
+    omega
+
+-- `static_cast<double>(wide_integer<200,int>)` and `static_cast<long double>(wide_integer<2048, uint64_t>)`: all values
+example {a : Limbs} (ha : WF 32 a) (hl : a.length = 7) :
+    WideFloatSpec.toFloatOk binary64 (toInt ⟨32, 7, true⟩ a) (toFloat x87ext binary64 ⟨32, 7, true⟩ a) = true :=
+  to_float_bracket_of_width x87ext binary64 (by decide) (by decide) ⟨32, 7, true⟩ (by decide) (by decide) (by decide)
+    (by decide) (by decide) ha hl
+example {a : Limbs} (ha : WF 64 a) (hl : a.length = 32) :
+    WideFloatSpec.toFloatOk x87ext (toInt ⟨64, 32, false⟩ a) (toFloat x87ext x87ext ⟨64, 32, false⟩ a) = true :=
+  to_float_bracket_of_width x87ext x87ext (by decide) (by decide) ⟨64, 32, false⟩ (by decide) (by decide) (by decide)
+    (by decide) (by decide) ha hl
+-- `static_cast<float>(wide_integer<200,int>{2^56 + 2^33 - 1})`: not representable, limb wider than the precision
+example : WideFloatSpec.toFloatOk binary32 (toInt ⟨32, 7, true⟩ (ofNat 32 7 (2^56 + 2^33 - 1)))
+    (toFloat x87ext binary32 ⟨32, 7, true⟩ (ofNat 32 7 (2^56 + 2^33 - 1))) = true :=
+  to_float_bracket_partial x87ext binary32 (by decide) (by decide) ⟨32, 7, true⟩ (by decide) (by decide) (by decide)
+    (by decide) (Basic.ofNat_WF _ _ _) (Basic.ofNat_length _ _ _) (by decide +kernel)
 
 /-! ## from floating point -/
 
